@@ -19,6 +19,7 @@ func C09(r *core.Report) {
 		"R2 every Lock/RLock is released in the same mode on every path to the function exit; R3 the acquired-while-holding relation between distinct mutexes is acyclic; " +
 		"R4 every read of MultiEpoch.epochs happens under mu (R or W) and every write under mu.Lock, in the function or at every call site of it; " +
 		"R5 the epoch listing is built from map keys (duplicate free) and a strict descending sort dominates its return. " +
+		"R7 single source of truth - every function that removes or replaces an entry of MultiEpoch.epochs also updates every other field of MultiEpoch that can hold an *Epoch (directly or through a same-package callee); adding a key found absent is exempt. " +
 		"Not decided: liveness of I/O performed by queries, use-after-close of an epoch that is being replaced (exempted by the property)."
 	r.Assumptions = []string{
 		"call graph: static calls, interface calls resolved by CHA over the repository's named types, function values resolved one level through call-site arguments/assignments",
@@ -29,6 +30,8 @@ func C09(r *core.Report) {
 	checkGuardedBy(r, "C09.R4", guardedField{Type: "main.MultiEpoch", Field: "epochs", Mutex: "mu"})
 	c09ListingOrder(r)
 	c09SnapshotSelfChecked(r)
+	c09SingleSourceOfTruth(r)
+	r.Floor("C09.R7", 2)
 	r.Floor("C09.R1", 4)
 	r.Floor("C09.R2", 25)
 	r.Floor("C09.R4", 8)
